@@ -1,0 +1,223 @@
+//go:build verif
+
+package redisemu
+
+// C04 / C05: the dictionary (redisDict) against an abstract view.
+//
+// Every dictionary carries two ghost fields: vdom (which keys are present) and
+// vval (the value bound to a present key). The representation invariant
+// dictRepr ties them to the bucket array: an occupied bucket holds a key that
+// hashes to that bucket, is in vdom and has its value in vval; and every key in
+// vdom sits in the bucket its hash selects. get/store/remove/rehash/clone and
+// the iterator are verified against it, so the commands built on them can be
+// specified over vdom/vval alone.
+//
+// dslot(h, n) is the bucket selected by hash h in a table of n buckets; it is
+// defined (not assumed) by the axioms below for each admissible table size and
+// is otherwise opaque, so only hashToIndex and rehash reason about bits.
+// sip(key) stands for calcSipHash(key): an unspecified function of the key.
+
+//@ ghostfield redisDict.vdom strmapof:bool
+//@ ghostfield redisDict.vval strmapof:any
+//@ uf sip(key string) uint64
+//@ uf dslot(h uint64, n int) int
+// a bucket number is a position in the table (a consequence of the per-size definitions for the admissible sizes; for other n the function is left unspecified and may be taken in range)
+//@ axiom forall h uint64, n int :: n >= 16 ==> dslot(h, n) >= 0 && dslot(h, n) < n
+//@ axiom forall h uint64 :: dslot(h, 16) == int(reverse32(uint32(h))>>28)
+//@ axiom forall h uint64 :: dslot(h, 32) == int(reverse32(uint32(h))>>27)
+//@ axiom forall h uint64 :: dslot(h, 64) == int(reverse32(uint32(h))>>26)
+//@ axiom forall h uint64 :: dslot(h, 128) == int(reverse32(uint32(h))>>25)
+//@ axiom forall h uint64 :: dslot(h, 256) == int(reverse32(uint32(h))>>24)
+//@ axiom forall h uint64 :: dslot(h, 512) == int(reverse32(uint32(h))>>23)
+//@ axiom forall h uint64 :: dslot(h, 1024) == int(reverse32(uint32(h))>>22)
+//@ axiom forall h uint64 :: dslot(h, 2048) == int(reverse32(uint32(h))>>21)
+//@ axiom forall h uint64 :: dslot(h, 4096) == int(reverse32(uint32(h))>>20)
+//@ axiom forall h uint64 :: dslot(h, 8192) == int(reverse32(uint32(h))>>19)
+//@ axiom forall h uint64 :: dslot(h, 16384) == int(reverse32(uint32(h))>>18)
+//@ axiom forall h uint64 :: dslot(h, 32768) == int(reverse32(uint32(h))>>17)
+//@ axiom forall h uint64 :: dslot(h, 65536) == int(reverse32(uint32(h))>>16)
+//@ axiom forall h uint64 :: dslot(h, 131072) == int(reverse32(uint32(h))>>15)
+//@ axiom forall h uint64 :: dslot(h, 262144) == int(reverse32(uint32(h))>>14)
+//@ axiom forall h uint64 :: dslot(h, 524288) == int(reverse32(uint32(h))>>13)
+//@ axiom forall h uint64 :: dslot(h, 1048576) == int(reverse32(uint32(h))>>12)
+//@ axiom forall h uint64 :: dslot(h, 2097152) == int(reverse32(uint32(h))>>11)
+//@ axiom forall h uint64 :: dslot(h, 4194304) == int(reverse32(uint32(h))>>10)
+//@ axiom forall h uint64 :: dslot(h, 8388608) == int(reverse32(uint32(h))>>9)
+//@ axiom forall h uint64 :: dslot(h, 16777216) == int(reverse32(uint32(h))>>8)
+//@ axiom forall h uint64 :: dslot(h, 33554432) == int(reverse32(uint32(h))>>7)
+//@ axiom forall h uint64 :: dslot(h, 67108864) == int(reverse32(uint32(h))>>6)
+//@ axiom forall h uint64 :: dslot(h, 134217728) == int(reverse32(uint32(h))>>5)
+//@ axiom forall h uint64 :: dslot(h, 268435456) == int(reverse32(uint32(h))>>4)
+//@ axiom forall h uint64 :: dslot(h, 536870912) == int(reverse32(uint32(h))>>3)
+//@ axiom forall h uint64 :: dslot(h, 1073741824) == int(reverse32(uint32(h))>>2)
+//@ axiom forall h uint64 :: dslot(h, 2147483648) == int(reverse32(uint32(h))>>1)
+
+//@ pred dictFwd(rd *redisDict) = allsel(j, 0, len(rd.buckets), rd.buckets[j] == nil || (rd.buckets[j].fullHash == sip(rd.buckets[j].key) && dslot(rd.buckets[j].fullHash, len(rd.buckets)) == j && rd.vdom[rd.buckets[j].key] && rd.vval[rd.buckets[j].key] == rd.buckets[j].value))
+//@ pred dictBwd(rd *redisDict) = allstr(q, !rd.vdom[q] || (rd.buckets[dslot(sip(q), len(rd.buckets))] != nil && rd.buckets[dslot(sip(q), len(rd.buckets))].key == q))
+//@ pred dictRepr(rd *redisDict) = rd != nil && dictSized(rd) && dictFwd(rd) && dictBwd(rd)
+
+//@ func calcSipHash
+//@ trusted SipHash of the key: a function of the key bytes only
+//@ pure
+//@ ensures result == sip(s)
+
+//@ func redisDict.hash
+//@ inline
+
+//@ func redisDict.findBucket
+//@ safetyprop C13
+//@ prop C04
+//@ pure
+//@ requires rd != nil && dictSized(rd)
+//@ ensures slot: int(bucketNumber) == dslot(fullHash, len(rd.buckets)) && int(bucketNumber) < len(rd.buckets)
+//@ ensures item: bucket == rd.buckets[bucketNumber]
+
+//@ func redisDict.get
+//@ safetyprop C13
+//@ prop C04 C05 C08 C16
+//@ pure
+//@ requires rd != nil
+//@ requires [C08,C16] locked: held
+//@ requires free wf: dictRepr(rd)
+//@ ensures [C04,C05] found: exists == rd.vdom[key]
+//@ ensures [C04,C05] value: exists ==> value == rd.vval[key]
+//@ ensures [C04] absent: !exists ==> value == nil
+// count is the number of present keys (each mutator is verified to change count by exactly the change of vdom; the global equality is their inductive consequence and is assumed here)
+//@ ensures free empty: rd.count == 0 ==> !exists
+
+//@ func redisDict.rehash
+//@ safetyprop C13
+//@ prop C04
+//@ fresh kk in 4..31 split
+//@ fresh mm in 4..31 split
+//@ caseonly mm > kk || mm == kk-1
+//@ requires [C04] wf: dictRepr(rd)
+//@ requires [C04] size: bucketCount >= 16 && bucketCount <= (1<<31) && bucketCount&(bucketCount-1) == 0
+//@ requires [C04] direction: int(bucketCount) > len(rd.buckets) || (int(bucketCount)*2 == len(rd.buckets) && all(p, 0, len(rd.buckets)-1, p&1 == 1 || rd.buckets[p] == nil || rd.buckets[p+1] == nil))
+//@ requires len(rd.buckets) == 1<<uint(kk)
+//@ requires bucketCount == uint32(1)<<uint(mm)
+//@ modifies rd->buckets alloc
+//@ ensures size: len(rd.buckets) == int(bucketCount)
+//@ ensures [C04] wf.sized: dictSized(rd)
+//@ ensures [C04] wf.fwd: dictFwd(rd)
+//@ ensures [C04] wf.bwd: dictBwd(rd)
+//@ loop 1 invariant len(buckets) == int(bucketCount) && rd.buckets == old(rd.buckets)
+//@ loop 1 invariant kept: allsel(j, 0, ri1, rd.buckets[j] == nil || buckets[dslot(rd.buckets[j].fullHash, len(buckets))] == rd.buckets[j])
+//@ loop 1 invariant placed: allsel(t, 0, len(buckets), buckets[t] == nil || (dslot(buckets[t].fullHash, len(buckets)) == t && dslot(buckets[t].fullHash, len(rd.buckets)) < ri1 && rd.buckets[dslot(buckets[t].fullHash, len(rd.buckets))] == buckets[t]))
+
+//@ pred dictEmptyView(rd *redisDict) = allstr(q, !rd.vdom[q])
+
+//@ func newRedisDict
+//@ safetyprop C13
+//@ prop C04
+//@ modifies alloc
+//@ ghostafter "dict := &redisDict{" : dict.scratch = true
+//@ ensures result != nil && result.count == 0 && result.scratch && !result.dirty && !result.keyspace
+//@ ensures fresh: asref(result) >= old(alloc())
+//@ ensures [C04] wf.sized: dictSized(result)
+//@ ensures [C04] wf.fwd: dictFwd(result)
+//@ ensures [C04] wf.bwd: dictBwd(result)
+//@ ensures [C04,C05] empty: dictEmptyView(result)
+
+//@ func redisDict.store
+//@ safetyprop C13
+//@ prop C04 C05 C08 C16 C10 C06 C19
+//@ nomerge
+//@ requires rd != nil
+//@ requires [C08,C16] locked: held
+// an object installed in a keyspace is a key object carrying the newest version of its store (C10, C06)
+//@ requires [C10,C06] newest: rd.keyspace ==> (istype(val, *storeKey) && unbox(val, *storeKey) != nil && unbox(val, *storeKey).id == rd.owner.dataObjectNumber)
+//@ requires free wf: dictRepr(rd)
+//@ requires free counted: rd.count >= 0
+//@ modifies rd->buckets rd->count rd->dirty rd->vdom rd->vval redisDictItem alloc ghost.mutated
+//@ ghostentry if !rd.scratch : mutated = true
+//@ ghostafter "item.value = val" : rd.vval = mapset(rd.vval, key, val)
+//@ ghostafter "rd.buckets[bucketNumber] = item" : rd.vdom = mapset(rd.vdom, key, true)
+//@ ghostafter "rd.buckets[bucketNumber] = item" : rd.vval = mapset(rd.vval, key, val)
+//@ loop 1 invariant rd.buckets == old(rd.buckets) && rd.count == old(rd.count) && rd.vdom == old(rd.vdom) && rd.vval == old(rd.vval) && rd.dirty && item == rd.buckets[bucketNumber] && item != nil
+//@ loop 1 invariant n == 0 || (n&(n-1) == 0 && int(n) >= len(rd.buckets))
+//@ ensures [C04] wf.sized: dictSized(rd)
+//@ ensures [C04] wf.fwd: dictFwd(rd)
+//@ ensures [C04] wf.bwd: dictBwd(rd)
+//@ ensures [C04,C05] view.dom: rd.vdom == mapset(old(rd.vdom), key, true)
+//@ ensures [C04,C05] view.val: rd.vval == mapset(old(rd.vval), key, val)
+//@ ensures [C04,C05] count: rd.count == old(rd.count) + ite(old(rd.vdom[key]), 0, 1)
+//@ ensures free nonempty: rd.count >= 1
+//@ ensures [C19] dirty: rd.dirty
+//@ ensures mut.set: !rd.scratch ==> mutated
+//@ ensures mut.mono: old(mutated) ==> mutated
+//@ ensures mut.scratch: rd.scratch ==> mutated == old(mutated)
+
+//@ func redisDict.remove
+//@ safetyprop C13
+//@ prop C04 C05 C08 C16 C19
+//@ nomerge
+//@ requires rd != nil
+//@ requires [C08,C16] locked: held
+//@ requires free wf: dictRepr(rd)
+//@ requires free counted: rd.count >= 0 && (rd.vdom[key] ==> rd.count >= 1)
+//@ modifies rd->buckets rd->count rd->removals rd->dirty rd->vdom alloc ghost.mutated ghost.removedKey
+//@ ghostafter "rd.buckets[bucketNumber] = nil" : rd.vdom = mapset(rd.vdom, key, false)
+//@ ghostafter "rd.buckets[bucketNumber] = nil" : if !rd.scratch : mutated = true
+//@ ghostafter "rd.buckets[bucketNumber] = nil" : if rd.keyspace : removedKey = true
+//@ loop 1 invariant reducable && i&1 == 0 && 0 <= i && i <= len(rd.buckets) && allsel(p, 0, i, p&1 == 1 || rd.buckets[p] == nil || rd.buckets[p+1] == nil)
+//@ ensures [C04] wf.sized: dictSized(rd)
+//@ ensures [C04] wf.fwd: dictFwd(rd)
+//@ ensures [C04] wf.bwd: dictBwd(rd)
+//@ ensures [C04,C05] found: exists == old(rd.vdom[key])
+//@ ensures [C04,C05] view.dom: rd.vdom == mapset(old(rd.vdom), key, false)
+//@ ensures [C04,C05] view.val: rd.vval == old(rd.vval)
+//@ ensures [C04,C05] count: rd.count == old(rd.count) - ite(exists, 1, 0)
+//@ ensures rd.count >= 0
+//@ ensures [C19] dirty: exists ==> rd.dirty
+//@ ensures dirty.mono: old(rd.dirty) ==> rd.dirty
+//@ ensures mut.set: exists && !rd.scratch ==> mutated
+//@ ensures mut.mono: old(mutated) ==> mutated
+//@ ensures mut.keep: (!exists || rd.scratch) ==> mutated == old(mutated)
+//@ ensures rk.set: exists && rd.keyspace ==> removedKey
+//@ ensures rk.mono: old(removedKey) ==> removedKey
+//@ ensures rk.keep: (!exists || !rd.keyspace) ==> removedKey == old(removedKey)
+
+//@ func redisDict.createIterator
+//@ safetyprop C13
+//@ prop C04 C05 C08 C16
+//@ requires rd != nil
+//@ requires [C08,C16] locked: held
+//@ modifies alloc
+//@ ensures result != nil && result.dict == rd && result.bucketNumber == 0
+//@ ensures fresh: asref(result) >= old(alloc())
+
+// one step of an iteration: the next occupied bucket at or after the position,
+// skipping only empty buckets; the yielded key is present and carries its value
+//@ func redisDictIter.next
+//@ safetyprop C13
+//@ prop C04 C05 C08 C16
+//@ requires rdi != nil && rdi.dict != nil
+//@ requires [C08,C16] locked: held
+//@ requires free wf: dictRepr(rdi.dict)
+//@ modifies rdi->bucketNumber rdi->key rdi->value
+//@ loop 1 invariant old(rdi.bucketNumber) <= rdi.bucketNumber && !more && rdi.key == old(rdi.key) && rdi.value == old(rdi.value)
+//@ loop 1 invariant skipped: int(rdi.bucketNumber) <= len(rdi.dict.buckets) || rdi.bucketNumber == old(rdi.bucketNumber)
+//@ loop 1 invariant empty: allsel(j, int(old(rdi.bucketNumber)), int(rdi.bucketNumber), rdi.dict.buckets[j] == nil)
+//@ ensures [C04,C05] step: more ==> old(rdi.bucketNumber) < rdi.bucketNumber && int(rdi.bucketNumber) <= len(rdi.dict.buckets) && rdi.dict.buckets[int(rdi.bucketNumber)-1] != nil && rdi.key == rdi.dict.buckets[int(rdi.bucketNumber)-1].key && rdi.value == rdi.dict.buckets[int(rdi.bucketNumber)-1].value
+//@ ensures [C04,C05] skipped: more ==> allsel(j, int(old(rdi.bucketNumber)), int(rdi.bucketNumber)-1, rdi.dict.buckets[j] == nil)
+//@ ensures [C04,C05] member: more ==> rdi.dict.vdom[rdi.key] && rdi.value == rdi.dict.vval[rdi.key]
+//@ ensures [C04,C05] done: !more ==> int(rdi.bucketNumber) >= len(rdi.dict.buckets) && allsel(j, int(old(rdi.bucketNumber)), len(rdi.dict.buckets), rdi.dict.buckets[j] == nil)
+//@ ensures done.keep: !more ==> rdi.key == old(rdi.key) && rdi.value == old(rdi.value)
+
+//@ func redisDict.clone
+//@ safetyprop C13
+//@ prop C04 C05 C08 C16
+//@ requires rd != nil
+//@ requires [C08,C16] locked: held
+//@ requires free wf: dictRepr(rd)
+//@ modifies alloc
+//@ ghostafter "dict := &redisDict{" : dict.scratch = true
+//@ ghostafter "dict := &redisDict{" : dict.vdom = rd.vdom
+//@ ghostafter "dict := &redisDict{" : dict.vval = rd.vval
+//@ ensures result != nil && result.scratch && result.count == rd.count && !result.keyspace && !result.dirty
+//@ ensures fresh: asref(result) >= old(alloc())
+//@ ensures [C04,C05] view: result.vdom == rd.vdom && result.vval == rd.vval
+//@ ensures [C04] wf.sized: dictSized(result)
+//@ ensures [C04] wf.fwd: dictFwd(result)
+//@ ensures [C04] wf.bwd: dictBwd(result)
